@@ -96,6 +96,21 @@ CLAIMED = {
     note="Trusted: Coq kernel + vm_compute; no axioms; hand-written model of utils/_info.py; harness. Partial by construction: object "
          "identity in CPython is outside the model, so aliasing is shown absent only on the histories explored.",
     technique="Coq proof (round trip) + refinement check against a value-semantics model", ref="§5 C19"),
+ "C02": dict(
+    text="Coq theorem C02_constraint: for each of the six relations and EVERY branch of the implementation (the a == b*c, "
+         "at-most-one, unary-slack, OR and implication shortcuts, the unsatisfiable / always-satisfied branches, unary and "
+         "binary slack, the +-1 sign gadget of !=), every lam <> 0, every integer-valued P and omitted / partial / any valid "
+         "bounds: the added terms are lam * G with G >= 0 at every assignment, G = 0 reachable by setting only the fresh "
+         "ancillas exactly when P R 0, and G >= 1 otherwise (unless the library warned unsatisfiable, where only G >= 0 is "
+         "claimed -- C02_le_strong keeps the gap for == and <=); the constraint is recorded and the ancilla counter covers "
+         "the fresh block. C02_valid_iff, C02_sequence / C02_ancilla_blocks (constraints added one after another use "
+         "disjoint consecutive ancilla blocks). Tied to /repo by exact comparison of terms, ancilla count, recorded "
+         "constraints, warnings and variables after every call of random call sequences (branch coverage measured inside "
+         "the model), plus an enumeration oracle of the property on the implementation.",
+    note="Trusted: Coq kernel + vm_compute; no axioms; hand-written model of _pcbo.py (constraint part) on top of the C05 model; "
+         "harness. The additivity statement 'min over all ancillas of the sum = sum of the minima' is carried per constraint "
+         "(disjoint blocks are proved; the explicit min-exchange lemma is not).",
+    technique="Coq proof (branch-by-branch evaluation identities + integer arithmetic lemmas) + model/implementation correspondence", ref="§5 C02"),
 }
 NA_REASON = "check not built yet in this round; see DESIGN.md §8 (order of work)"
 
